@@ -8,25 +8,25 @@ HERE = os.path.dirname(os.path.dirname(os.path.abspath(__file__)))
 P = {
  'C01': ('DESIGN.md 3/C01', 'sympy comparison of extracted return terms with the documented closed forms; binding, dispatch and loop shape rules',
          'Decides, for every propensity class x mode x reactant multiset of order <= 4, that the returned expression IS the documented closed form (exact algebra, not sampling), that initialize binds each index from the documented key, that create_propensity dispatches by reactant count and that both interfaces evaluate the requested slot for every reaction. Holds for all states/parameters/volumes because it is a fact about the formula.',
-         'formula extraction by def-use substitution + algebraic comparison (syntax tree)'),
+         'formula extraction by def-use substitution + algebraic comparison (syntax tree); declared C types propagated through the rate-law methods (no unsigned subtraction)'),
  'C02': ('DESIGN.md 3/C02', 'Term node semantics, sympy_recursion translation table, rejection paths',
          'Decides the node semantics of all Term classes (evaluate and volume_evaluate), the translation table of sympy_recursion (operator -> node class, operand roles, all args added) and that every path for an unknown name/node raises. What sympify returns for a string is NOT decided.',
-         'table agreement + must-raise path rule over the syntax tree'),
+         'table agreement + must-raise path rule over the syntax tree; symbolic execution of the node methods with child calls compared by value; purity (no hidden state) of compilation and evaluation'),
  'C03': ('DESIGN.md 3/C03', 'stoichiometry construction, tuple-position agreement, derivative bilinear form, initialisation check',
          'Decides the structural clauses: +-1 accumulation per occurrence into the right dict, tuple positions, matrix fill through species2index, derivative = sum over non-zero net stoichiometry x propensity, check_parameters dominates initialized=True.',
-         'syntax-tree pattern rules + must-pass-through'),
+         'syntax-tree pattern rules + must-pass-through; symbolic execution of the derivative loop for rows of 0-3 entries; wrapper delegation'),
  'C04': ('DESIGN.md 3/C04', 'wiring of rhs_global / odeint call / result construction',
          'Decides only the wiring clauses (right-hand side = rules then derivative of the simulated interface; odeint called with the initial state copy and the caller time grid; result labelled with the same grid). Integrator accuracy is NOT decided.',
-         'must-pass-through and argument-role rules on the syntax tree'),
+         'must-pass-through and argument-role rules on the syntax tree; partial evaluation of the option handling for every keyword subset'),
  'C05': ('DESIGN.md 3/C05', 'sampler primitives vs specification; SSA loop ordering',
          'Decides the sampler-structure clauses: exponential_rv / sample_discrete / array_sum formulas and the per-iteration ordering in the SSA loop (propensities from current state -> Lambda -> time -> record -> choose from same buffer -> update by one column). Distributional equality is NOT decided.',
-         'formula extraction + path enumeration of the loop body'),
+         'formula extraction + path enumeration of the loop body; partial evaluation (constants or unknown) of one pass on a value table and of consecutive passes from the set-up code on a scripted scenario: the event race'),
  'C06': ('DESIGN.md 3/C06', 'state write-set, Lambda==0 path rule, safe-mode requirement table',
          'Decides: every store into the state array is one stoichiometric column per fired event; no feasible path of an iteration reaches sample_discrete/state update when Lambda == 0; safe interface zeroes under-supplied reactions. Boundedness is NOT decided.',
          'path-sensitive flag analysis over all acyclic paths of each loop body'),
  'C07': ('DESIGN.md 3/C07', 'definite assignment over the exhaustive option lattice; abstract-class instantiation; constructor completeness',
          'Enumerates all option combinations abstractly through py_simulate_model (exhaustive over the finite lattice): each ends in an explicit option error or reaches the return with every variable defined, a concrete simulator class, and a result class whose constructor sets every field its methods read.',
-         'abstract interpretation over the finite option lattice + class-table rules'),
+         'abstract interpretation over the finite option lattice (definite assignment, explicit errors, simulator dispatch table) + class-table rules'),
  'C08': ('DESIGN.md 3/C08', 'initialized-flag invalidation, clear-before-push pairing, copy/alias rules, seeding write-set, who-may-draw',
          'Decides that each history-erasing mechanism is present on every path of every mutator / entry point. Equality of outputs over arbitrary histories as such is NOT decided.',
          'field write-sets, pairing and who-may-call rules'),
@@ -35,10 +35,10 @@ P = {
          'formula extraction + path-sensitive flag analysis'),
  'C10': ('DESIGN.md 3/C10', 'exactly-one disposition per firing, queue delivery typestate, sampler formulas',
          'Decides exactly-once structure of the delay loops and the Box-Muller / Marsaglia-Tsang formulas. The distributions themselves are NOT decided.',
-         'path enumeration + formula comparison'),
+         'path enumeration + formula comparison; partial evaluation of the delay loops (event race)'),
  'C11': ('DESIGN.md 3/C11', 'volume formulas (shared with C01), volume-step/queue-advance pairing, division exit, growth laws',
          'Decides volume-scaled formulas, that each elapsed dt is paired with exactly one volume step on every path, division leaves the loop and truncates consistently. Distributional statement NOT decided.',
-         'formula comparison + path-sensitive pairing rule'),
+         'formula comparison + path-sensitive pairing rule; partial evaluation of the volume loops (event race)'),
  'C12': ('DESIGN.md 3/C12', 'writer/reader annotation key agreement, exhaustiveness of type tables, field forwarding',
          'Decides agreement between the SBML annotation writer and reader (the reader code partially evaluated on the strings the writer code builds for sample reactions gives the sample back) and that nothing is dropped between model and writer. Round trip through libsbml NOT decided.',
          'string-template extraction + partial evaluation of reader after writer + table agreement'),
@@ -53,16 +53,16 @@ P = {
          'symbolic shape analysis + must-pass-through'),
  'C16': ('DESIGN.md 3/C16', 'density identity (sympy) and support rejection (interval x NaN abstract interpretation)',
          'Decides for the seven families that the returned expression is the log of the textbook density and that no out-of-support path can return a finite value.',
-         'formula comparison + abstract interpretation of scalar functions'),
+         'formula comparison + abstract interpretation of scalar functions; taint analysis (the caller\'s prior is never mutated); loop-carried-variable analysis of check_prior'),
  'C17': ('DESIGN.md 3/C17', 'getstate/setstate positional agreement, attribute coverage, picklability closure',
          'Decides positional agreement of all hand-written state methods, coverage of declared attributes and picklability (compiler-generated reducers) of every class reachable from a state tuple.',
          'table agreement over the class table + Cython declaration analysis'),
  'C18': ('DESIGN.md 3/C18', 'finite-difference stencil moment conditions, orientation, parameter restore typestate',
          'Decides order-p consistency of each stencil from its coefficients (exact rationals), J[i,j] orientation and that parameters are restored on every path.',
-         'linear-form extraction + typestate'),
+         'linear-form extraction + typestate; structural rules for the evaluation point (fresh contiguous state, forwarding wrappers); purity and closed forms of the rate laws re-emitted'),
  'C19': ('DESIGN.md 3/C19', 'partition write pairs, daughter construction, no phantom event, volume positivity test',
          'Decides conservation by construction in the partition methods, mutual links, and that no path samples an event when Lambda == 0 in the lineage loop.',
-         'write-pair rule + path-sensitive flag analysis'),
+         'symbolic execution of partition() per species class (element view, helpers inlined) + path-sensitive flag analysis + partial evaluation of the time-advance block of the lineage loop on a value table'),
  'C20': ('DESIGN.md 3/C20', 'ring-buffer method obligations',
          'Every method of ArrayDelayQueue is checked against the ring-buffer specification (rounding, clamps, modular shift, accumulate, clear-before-advance, complete copies).',
          'syntax-tree rules per method against a ring-buffer specification'),
@@ -100,7 +100,7 @@ def main():
         'engines': [{'name': 'bsverif', 'path': '/verif/bsverif',
                      'serves_properties': [c['property_id'] for c in checks],
                      'kind_free_text': 'static analysis over the Cython (PostParse) and Python syntax trees of /repo: class table, '
-                                       'formula extraction, path enumeration with abstract flags, table agreement'}],
+                                       'formula extraction (symbolic execution of loop-free code and accumulate loops), path enumeration with abstract flags, partial evaluation of code blocks on sample inputs (values are constants, named holes or unknown), table agreement'}],
         'checks': checks,
         'not_applicable': na,
         'notes': 'All checks read /repo (or $VERIF_REPO) source only; nothing of bioscrape is imported or executed. '
